@@ -43,13 +43,13 @@ func (C03) Generate(r *core.Rand, tier string, idx int) *core.Scenario {
 		sc.Cfg["nsess"], sc.Cfg["nbox"] = 1, 3
 		sc.Actions = append(sc.Actions, core.Action{K: "select", A: []int{1, 0}})
 		ops := []core.Action{
-			{K: "store", A: []int{2, 0, 0, 1, 1 << r.Intn(4), 0, r.Intn(2), 1}},            // +FLAGS one flag
-			{K: "store", A: []int{2, 0, 0, 2, 1 << r.Intn(4), 0, r.Intn(2), 1}},            // -FLAGS
-			{K: "store", A: []int{2, 0, 0, 0, 1 + r.Intn(15), 0, r.Intn(2), 1}},            // FLAGS set
-			{K: "store", A: []int{2, 0, 0, 1, 1<<5 | 1<<r.Intn(4), 0, r.Intn(2), 1}},       // +FLAGS keyword and system flag
+			{K: "store", A: []int{2, 0, 0, 1, 1 << r.Intn(4), 0, r.Intn(2), 1}},      // +FLAGS one flag
+			{K: "store", A: []int{2, 0, 0, 2, 1 << r.Intn(4), 0, r.Intn(2), 1}},      // -FLAGS
+			{K: "store", A: []int{2, 0, 0, 0, 1 + r.Intn(15), 0, r.Intn(2), 1}},      // FLAGS set
+			{K: "store", A: []int{2, 0, 0, 1, 1<<5 | 1<<r.Intn(4), 0, r.Intn(2), 1}}, // +FLAGS keyword and system flag
 			{K: "copy", A: []int{2, 0, 0, 2, r.Intn(2)}},
 			{K: "move", A: []int{2, 0, 0, 2, r.Intn(2)}},
-			{K: "store", A: []int{4, 500 + r.Intn(3), 0, 1, 1 << 4, 0, r.Intn(2), 1}},      // \Deleted on k:*
+			{K: "store", A: []int{4, 500 + r.Intn(3), 0, 1, 1 << 4, 0, r.Intn(2), 1}}, // \Deleted on k:*
 			{K: "expunge"},
 			{K: "fetch", A: []int{2, 0, 0, 1}},
 		}
